@@ -201,13 +201,21 @@ class _LibrationDynamicsService(_DynamicsServiceBase):
         if options is None:
             options = self.eigendecomposition_options
             
-        cache_key = self.make_key(id(self.domain_obj), tuple(sorted(options.to_dict().items())))
+        cache_key = self.make_key(
+            id(self.domain_obj),
+            "stability",
+            self.eigendecomposition_config,
+            tuple(sorted(options.to_dict().items())),
+        )
 
-        def _factory() -> StabilityPipeline:
-            self.generator.compute(self.domain_obj, options=options)
-            return self.generator
+        def _factory():
+            return self.generator.compute(self.domain_obj, options=options)
 
-        return self.get_or_create(cache_key, _factory)
+        # The pipeline is one mutable object shared by every request: cache the
+        # results per request and hand the pipeline out carrying those results.
+        generator = self.generator
+        generator._results = self.get_or_create(cache_key, _factory)
+        return generator
 
     def center_manifold(self, degree: int) -> CenterManifold:
         """Get or create a center manifold of the specified degree.
